@@ -552,7 +552,11 @@ def att_eval(ctx, sts):
     for k, s in enumerate(sts):
         rv[:, k], th[k] = rotvec_of(s["e"])
     same = np.array([bool(s["same"]) for s in sts])
-    excl = ~same & (th > math.pi - NEAR_PI)
+    # exactly 180 deg (scalar part of the error quaternion exactly 0) is NOT excluded: the direction of the
+    # rotation vector is ambiguous there, but "zero iff same rotation", |command| = pi and X*Exp(command) = X_r
+    # (true for either direction) are well defined; only the band around it is ill-conditioned for the value compare
+    exact_pi = np.array([int(s["e"][0]) == 0 and not bool(s["same"]) for s in sts])
+    excl = ~same & (th > math.pi - NEAR_PI) & ~exact_pi
     cells = []
     for k, s in enumerate(sts):
         c = s["cell"]
@@ -613,6 +617,10 @@ def att_eval(ctx, sts):
                 reach = np.max(np.abs(RQ[k] @ rodrigues(c1[:, k]) - RR[k])) <= TOL
             if not reach:
                 run.violation(f"{name}/reach/{c}", "X*Exp(command) is not the reference rotation (unit gains)", data())
+            elif exact_pi[k]:
+                ctx.cell("att/exact_pi")
+                if not abs(nrm[k] - math.pi) <= 1e-9:
+                    run.violation(f"{name}/rotvec_norm/exact_pi", "half-turn error: |command| is not pi", data())
             elif not val_ok[k]:
                 run.violation(f"{name}/rotvec/{c}", "command is not the principal rotation vector of X^-1 X_r (angle <= pi)", data())
             else:
@@ -744,7 +752,7 @@ def replay_vectors(ctx, sts):
     grp = {}
     for s in sts:
         op = s["op"]
-        key = "vel" if op in ("VelInput", "VelReset") else op
+        key = "vel" if op in ("VelInput", "VelReset") else ("RateStep" if op == "RateAny" else op)
         grp.setdefault(key, []).append(s)
     out = {"excluded_att": 0}
     if "RateStep" in grp:
